@@ -32,16 +32,36 @@ inductive SignalTarget where
   | allExcept (mi : Nat)
   deriving Repr, DecidableEq, Inhabited
 
-structure Runtime where
-  currentState : Nat
-  stateLimit : Nat
+/-- accounting part of a machine's runtime: changed only by the accounting step of an event,
+    never by a transition -/
+structure RtAcct where
   paddingSent : Nat
   normalSent : Nat
   blockingDur : Nat          -- ns
   machineStart : Int         -- ns
   allowedBlocked : Nat       -- ns
+  deriving Repr, DecidableEq, Inhabited
+
+structure Runtime where
+  currentState : Nat
+  stateLimit : Nat
   counterA : Nat
   counterB : Nat
+  acct : RtAcct
+  deriving Repr, DecidableEq, Inhabited
+
+/-- the framework-wide accounting state and configuration: changed only at the start of a call
+    and by the accounting step of an event, never by a transition -/
+structure Globals where
+  now : Int
+  maxPaddingFrac : F64
+  maxBlockingFrac : F64
+  normalSent : Nat
+  paddingSent : Nat
+  blockingDur : Nat
+  blockingStarted : Int
+  blockingActive : Bool
+  start : Int
   deriving Repr, DecidableEq, Inhabited
 
 /-- the random source: one uniform f32 draw in [0,1) per transition lookup, and the raw
@@ -52,20 +72,12 @@ structure Oracle (σ : Type) where
 
 structure Fw (σ : Type) where
   machines : List Machine
+  g : Globals
   rt : List Runtime
   actions : List (Option TAction)
-  now : Int
-  maxPaddingFrac : F64
-  maxBlockingFrac : F64
-  normalSent : Nat
-  paddingSent : Nat
-  blockingDur : Nat
-  blockingStarted : Int
-  blockingActive : Bool
   signalPending : Option SignalTarget
   zeroedA : Bool
   zeroedB : Bool
-  start : Int
   rng : σ
   fault : Option Fault
   log : List LogEntry
@@ -185,16 +197,16 @@ section
 variable {σ : Type}
 
 /-- result of a limit predicate: `none` = panic (duration overflow) -/
-def belowLimitBlocking (s : Fw σ) (r : Runtime) (m : Machine) (replace : Bool) : Option Bool :=
+def belowLimitBlocking (s : Globals) (r : Runtime) (m : Machine) (replace : Bool) : Option Bool :=
   if replace && s.blockingActive then some (decide (r.stateLimit > 0)) else
   let ongoing := if s.blockingActive then durSince s.now s.blockingStarted else 0
-  let mDur := r.blockingDur + ongoing
+  let mDur := r.acct.blockingDur + ongoing
   let gDur := s.blockingDur + ongoing
   if s.blockingActive && (mDur > durMax || gDur > durMax) then none else
-  if mDur < r.allowedBlocked then some (decide (r.stateLimit > 0)) else
+  if mDur < r.acct.allowedBlocked then some (decide (r.stateLimit > 0)) else
   let mNo :=
     Fp.gt (Fp.val64 m.maxBlockingFrac) (.fin 0) &&
-      Fp.ge (divDur mDur (durSince s.now r.machineStart)) (Fp.val64 m.maxBlockingFrac)
+      Fp.ge (divDur mDur (durSince s.now r.acct.machineStart)) (Fp.val64 m.maxBlockingFrac)
   if mNo then some false else
   let gNo :=
     Fp.gt (Fp.val64 s.maxBlockingFrac) (.fin 0) &&
@@ -202,13 +214,13 @@ def belowLimitBlocking (s : Fw σ) (r : Runtime) (m : Machine) (replace : Bool) 
   if gNo then some false else
   some (decide (r.stateLimit > 0))
 
-def belowLimitPadding (s : Fw σ) (r : Runtime) (m : Machine) : Bool :=
-  if r.paddingSent < m.allowedPaddingPackets then decide (r.stateLimit > 0) else
+def belowLimitPadding (s : Globals) (r : Runtime) (m : Machine) : Bool :=
+  if r.acct.paddingSent < m.allowedPaddingPackets then decide (r.stateLimit > 0) else
   -- machine limit
-  let mTotal := r.normalSent + r.paddingSent
+  let mTotal := r.acct.normalSent + r.acct.paddingSent
   if Fp.gt (Fp.val64 m.maxPaddingFrac) (.fin 0) && mTotal == 0 then true else
   if Fp.gt (Fp.val64 m.maxPaddingFrac) (.fin 0) &&
-      Fp.ge (Fp.div Fp.f64 (Fp.ofNat Fp.f64 r.paddingSent) (Fp.ofNat Fp.f64 mTotal)) (Fp.val64 m.maxPaddingFrac)
+      Fp.ge (Fp.div Fp.f64 (Fp.ofNat Fp.f64 r.acct.paddingSent) (Fp.ofNat Fp.f64 mTotal)) (Fp.val64 m.maxPaddingFrac)
   then false else
   let gTotal := s.paddingSent + s.normalSent
   if Fp.gt (Fp.val64 s.maxPaddingFrac) (.fin 0) && gTotal == 0 then true else
@@ -218,7 +230,7 @@ def belowLimitPadding (s : Fw σ) (r : Runtime) (m : Machine) : Bool :=
   decide (r.stateLimit > 0)
 
 /-- `below_action_limits`; `none` = panic -/
-def belowActionLimits (s : Fw σ) (r : Runtime) (m : Machine) : Option Bool :=
+def belowActionLimits (s : Globals) (r : Runtime) (m : Machine) : Option Bool :=
   match m.states[r.currentState]? with
   | none => none
   | some st =>
@@ -314,7 +326,7 @@ def transition : Nat → Nat → Event → Fw σ → Fw σ × Bool
             match s.rt[mi]? with
             | none => (s.withFault .oob, false)
             | some r1 =>
-            match belowActionLimits s r1 m with
+            match belowActionLimits s.g r1 m with
             | none => (s.withFault (if m.states[r1.currentState]?.isNone then .oob else .durOverflow), false)
             | some below =>
             let (s, allow, chg) := updateCounter fuel mi s
@@ -401,27 +413,27 @@ def processEvent (e : TEvent) (s : Fw σ) : Fw σ :=
   | .tunnelRecv => transitionAll ρ .tunnelRecv s
   | .tunnelSent => transitionAll ρ .tunnelSent s
   | .normalSent =>
-    let s := { s with normalSent := s.normalSent + 1 }
+    let s := { s with g := { s.g with normalSent := s.g.normalSent + 1 } }
     (List.range s.rt.length).foldl (fun s mi =>
-      let s := s.modRt mi (fun r => { r with normalSent := r.normalSent + 1 })
+      let s := s.modRt mi (fun r => { r with acct := { r.acct with normalSent := r.acct.normalSent + 1 } })
       (transition ρ FUEL mi .normalSent s).1) s
   | .paddingSent mi =>
-    let s := { s with paddingSent := s.paddingSent + 1 }
+    let s := { s with g := { s.g with paddingSent := s.g.paddingSent + 1 } }
     if mi ≥ s.rt.length then s else
-    let s := s.modRt mi (fun r => { r with paddingSent := r.paddingSent + 1 })
+    let s := s.modRt mi (fun r => { r with acct := { r.acct with paddingSent := r.acct.paddingSent + 1 } })
     let (s, chg) := transition ρ FUEL mi .paddingSent s
     if !chg && notEnded s mi then decrementLimit ρ mi s else s
   | .blockingBegin m =>
-    let s := if !s.blockingActive then { s with blockingActive := true, blockingStarted := s.now } else s
+    let s := if !s.g.blockingActive then { s with g := { s.g with blockingActive := true, blockingStarted := s.g.now } } else s
     (List.range s.rt.length).foldl (fun s mi =>
       let (s, chg) := transition ρ FUEL mi .blockingBegin s
       if !chg && notEnded s mi && mi == m then decrementLimit ρ mi s else s) s
   | .blockingEnd =>
-    let blocked := if s.blockingActive then durSince s.now s.blockingStarted else 0
+    let blocked := if s.g.blockingActive then durSince s.g.now s.g.blockingStarted else 0
     let s :=
-      if s.blockingActive then
-        let s := if s.blockingDur + blocked > durMax then s.withFault .durOverflow else s
-        { s with blockingDur := s.blockingDur + blocked, blockingActive := false }
+      if s.g.blockingActive then
+        let s := if s.g.blockingDur + blocked > durMax then s.withFault .durOverflow else s
+        { s with g := { s.g with blockingDur := s.g.blockingDur + blocked, blockingActive := false } }
       else s
     (List.range s.rt.length).foldl (fun s mi =>
       let s :=
@@ -429,8 +441,8 @@ def processEvent (e : TEvent) (s : Fw σ) : Fw σ :=
           match s.rt[mi]? with
           | none => s.withFault .oob
           | some r =>
-            let s := if r.blockingDur + blocked > durMax then s.withFault .durOverflow else s
-            s.modRt mi (fun r => { r with blockingDur := r.blockingDur + blocked })
+            let s := if r.acct.blockingDur + blocked > durMax then s.withFault .durOverflow else s
+            s.modRt mi (fun r => { r with acct := { r.acct with blockingDur := r.acct.blockingDur + blocked } })
         else s
       (transition ρ FUEL mi .blockingEnd s).1) s
   | .timerBegin mi =>
@@ -462,7 +474,7 @@ def signalRound (s : Fw σ) : Fw σ :=
 
 /-- `Framework::trigger_events`; the returned actions are `actionsOut` of the result -/
 def triggerEvents (es : List TEvent) (t : Int) (s : Fw σ) : Fw σ :=
-  let s := { s with actions := s.actions.map (fun _ => none), zeroedA := false, zeroedB := false, now := t }
+  let s := { s with actions := s.actions.map (fun _ => none), zeroedA := false, zeroedB := false, g := { s.g with now := t } }
   let s := es.foldl (fun s e => processEvent ρ e s) s
   signalRound ρ s
 
@@ -477,14 +489,14 @@ variable {σ : Type} (ρ : Oracle σ)
 /-- `Framework::new` after validation succeeded (validation is modelled in `Validate.lean`) -/
 def Fw.init (machines : List Machine) (fp fb : F64) (t0 : Int) (rng : σ) : Fw σ :=
   let rt := machines.map fun m =>
-    ({ currentState := 0, stateLimit := 0, paddingSent := 0, normalSent := 0, blockingDur := 0,
-       machineStart := t0, allowedBlocked := m.allowedBlockedMicrosec * 1000,
-       counterA := 0, counterB := 0 } : Runtime)
+    ({ currentState := 0, stateLimit := 0, counterA := 0, counterB := 0,
+       acct := { paddingSent := 0, normalSent := 0, blockingDur := 0, machineStart := t0,
+                 allowedBlocked := m.allowedBlockedMicrosec * 1000 } } : Runtime)
   let s : Fw σ :=
-    { machines := machines, rt := rt, actions := machines.map (fun _ => none), now := t0,
-      maxPaddingFrac := fp, maxBlockingFrac := fb, normalSent := 0, paddingSent := 0,
-      blockingDur := 0, blockingStarted := t0, blockingActive := false, signalPending := none,
-      zeroedA := false, zeroedB := false, start := t0, rng := rng, fault := none, log := [] }
+    { machines := machines, rt := rt, actions := machines.map (fun _ => none),
+      g := { now := t0, maxPaddingFrac := fp, maxBlockingFrac := fb, normalSent := 0, paddingSent := 0,
+             blockingDur := 0, blockingStarted := t0, blockingActive := false, start := t0 },
+      signalPending := none, zeroedA := false, zeroedB := false, rng := rng, fault := none, log := [] }
   (List.range machines.length).foldl (fun s mi =>
     match s.machines[mi]? with
     | none => s.withFault .oob
